@@ -211,6 +211,22 @@ def run(tier, seed):
         D.run("detect_tilt", [c03.ang(t1), c03.ang(t2), c03.ang(a3)])
         if (a1[0], a1[1]) != (0, 0):
             D.run("_arctan2", [a1[1] / a1[2] * 10 ** rng.uniform(-9, 0), a1[0] / a1[2] * 10 ** rng.uniform(-9, 0)])
+    # near gimbal lock and near the half turn (PHI or pi - PHI of 1e-2 .. 1e-9, rotation angle of 180 - 1e-2 .. 1e-6 degrees): the branch
+    # thresholds of u_to_euler / u_to_rod / _arctan2 must sit at the same place in both modules
+    for _ in range(120 if tier == "quick" else 2000):
+        PHI = 10 ** rng.uniform(-9, -2)
+        if rng.random() < 0.5:
+            PHI = math.pi - PHI
+        e = [rng.uniform(0, 2 * math.pi), PHI, rng.uniform(0, 2 * math.pi)]
+        Ug = np.asarray(tools.euler_to_u(*e), dtype=float)
+        D.run("u_to_euler", [Ug], note="(near gimbal lock: PHI = %.3e)" % e[1])
+        D.run("u_to_rod", [Ug], note="(near gimbal lock: PHI = %.3e)" % e[1], tol=1e-9)
+        ax = np.array([rng.uniform(-1, 1) for _ in range(3)])
+        ax /= np.sqrt(ax.dot(ax))
+        th = math.pi - 10 ** rng.uniform(-8, -4)
+        K = np.array([[0, -ax[2], ax[1]], [ax[2], 0, -ax[0]], [-ax[1], ax[0], 0]])
+        Uh = np.eye(3) + math.sin(th) * K + (1 - math.cos(th)) * K.dot(K)
+        D.run("u_to_euler", [Uh], note="(rotation by pi - %.1e)" % (math.pi - th))
     # ---- D: reflection generation
     tabs, dic = export.write_tables_module(wd)
     pick = [(t["no"], t["setting"]) for t in tabs if t["no"] in (1, 2, 5, 14, 19, 62, 88, 123, 143, 146, 148, 150, 155, 158, 159, 160, 163, 165, 167, 176, 185, 186, 188, 194, 198, 205, 220, 225, 227, 230)]
